@@ -43,8 +43,10 @@ func main() {
 	e2 = seccomp.LoadFilter(seccomp.Filter{NoNewPrivs: true, Flag: seccomp.FilterFlagTSync, Policy: pol})
 	e3 = seccomp.LoadFilter(seccomp.Filter{Policy: pol})
 	e4 = seccomp.LoadFilter(seccomp.Filter{Policy: seccomp.Policy{DefaultAction: 12345}})
+	supAfter := seccomp.Supported() // a history: asked again after the loads
 	marker(82)
 	out["supported"] = sup
+	out["supported_after_loads"] = supAfter
 	out["setnonewprivs_error"] = errStr(e1)
 	out["loadfilter_nnp_tsync_error"] = errStr(e2)
 	out["loadfilter_plain_error"] = errStr(e3)
